@@ -2206,3 +2206,18 @@ Definition example_expr : expr :=
 Example example_hypotheses :
   wf_expr example_expr = true /\ consistent default_names [L "V"; L "f"] [] example_expr = true.
 Proof. split; reflexivity. Qed.
+
+(* tensors with an empty upper or lower index group (1h / 1p amplitude
+   vectors Y^{}_{j}, Y^{a}_{}, one-operator matrices d^{}_{q}) are inside the
+   fragment: [wf_base] puts no condition on the length of the index lists *)
+Definition empty_group_expr : expr :=
+  let j := LIdx "j" [] NoSpin in let a := LIdx "a" [] Alpha in
+  [Term true (BObjs [OPow (BTens KAmp (L "Y") 0 [] [j]) 1; OPow (BTens KAnti (L "f") 1 [j] [j]) 1]) None;
+   Term false (BObjs [OPow (BTens KAmp (L "X") 0 [a] []) 2; OPow (BTens KAnti (L "d") 0 [] [j]) 1;
+                      OPow (BTens KSym (L "v") 0 [] []) 1; OPow (BNonSym (L "n") []) 1]) None].
+Example empty_groups_roundtrip :
+  wf_expr empty_group_expr = true /\ consistent default_names [L "f"] [] empty_group_expr = true /\
+  print_model empty_group_expr = "- {Y^{}_{j}} {f^{j}_{j}} + {X^{a_{\alpha}}_{}}^{2} {d^{}_{j}} {v^{}_{}} {n_{}}"%string /\
+  import_model default_names false (print_model empty_group_expr) = Some (forget default_names empty_group_expr).
+Proof. split; [reflexivity|]. split; [reflexivity|]. split; [reflexivity|].
+  apply import_print_roundtrip. reflexivity. Qed.
